@@ -7,6 +7,9 @@ successor by `R j`. Every helper of the router except `handleDisconnection` /
   `RO id`  identity fields and the outgoing window are kept; connections other than `id` differ at
            most in their tracker,
   `RW id`  identity fields are kept; connections other than `id` differ at most in their tracker.
+UNSUBSCRIBE (which makes window entries of the ended subscription forget their cursor) has its own
+relation `RU id`; `RA id` (a packet batch) allows both acknowledged entries leaving at the front and
+forgotten cursors.
 -/
 import Proofs.Lemmas.Router.Rp1_Slab
 namespace Router
@@ -32,11 +35,133 @@ def RO (id : Nat) : Nat → Conn → Conn → Prop :=
 def RW (id : Nat) : Nat → Conn → Conn → Prop :=
   fun j c c' => c.sameId c' ∧ (j ≠ id → RT j c c')
 
-/-- identity kept; the outgoing window only loses entries at its front (acknowledged ones) and
-    `last_pkid` stays; others differ at most in the tracker -/
+/-! ### windows whose entries may forget their cursor (UNSUBSCRIBE, `Outgoing.forgetCursors`) -/
+
+/-- a window entry keeps packet id and filter index; its cursor stays or is forgotten -/
+def EForget (e e' : Nat × Nat × Option Cursor) : Prop :=
+  e'.1 = e.1 ∧ e'.2.1 = e.2.1 ∧ (e'.2.2 = e.2.2 ∨ e'.2.2 = none)
+
+/-- entry by entry: same packet ids, same filter indexes, same order and length; cursors may have
+    been forgotten -/
+def Forgets : List (Nat × Nat × Option Cursor) → List (Nat × Nat × Option Cursor) → Prop
+  | [], [] => True
+  | e :: l, e' :: l' => EForget e e' ∧ Forgets l l'
+  | [], _ :: _ => False
+  | _ :: _, [] => False
+
+theorem EForget.refl (e : Nat × Nat × Option Cursor) : EForget e e := ⟨rfl, rfl, .inl rfl⟩
+theorem EForget.trans {a b c : Nat × Nat × Option Cursor} (h1 : EForget a b) (h2 : EForget b c) : EForget a c :=
+  ⟨h2.1.trans h1.1, h2.2.1.trans h1.2.1, by
+    rcases h2.2.2 with e | e
+    · rcases h1.2.2 with e' | e'
+      · exact .inl (e.trans e')
+      · exact .inr (e.trans e')
+    · exact .inr e⟩
+
+theorem Forgets.refl : ∀ l, Forgets l l
+  | [] => trivial
+  | e :: l => ⟨EForget.refl e, Forgets.refl l⟩
+
+theorem Forgets.of_eq {l l' : List (Nat × Nat × Option Cursor)} (h : l' = l) : Forgets l l' := h ▸ Forgets.refl l
+
+theorem Forgets.trans : ∀ {a b c : List (Nat × Nat × Option Cursor)}, Forgets a b → Forgets b c → Forgets a c
+  | [], [], [], _, _ => trivial
+  | _ :: _, _ :: _, _ :: _, h1, h2 => ⟨h1.1.trans h2.1, Forgets.trans h1.2 h2.2⟩
+  | [], _ :: _, _, h1, _ => h1.elim
+  | _ :: _, [], _, h1, _ => h1.elim
+  | [], [], _ :: _, _, h2 => h2.elim
+  | _ :: _, _ :: _, [], _, h2 => h2.elim
+
+theorem Forgets.length : ∀ {l l' : List (Nat × Nat × Option Cursor)}, Forgets l l' → l'.length = l.length
+  | [], [], _ => rfl
+  | _ :: _, _ :: _, h => by simp [Forgets.length h.2]
+  | [], _ :: _, h => h.elim
+  | _ :: _, [], h => h.elim
+
+theorem Forgets.drop : ∀ {l l' : List (Nat × Nat × Option Cursor)} (n : Nat), Forgets l l' →
+    Forgets (l.drop n) (l'.drop n)
+  | _, _, 0, h => by simpa using h
+  | [], [], _ + 1, _ => by simp [Forgets]
+  | _ :: _, _ :: _, n + 1, h => by simpa using Forgets.drop n h.2
+  | [], _ :: _, _ + 1, h => h.elim
+  | _ :: _, [], _ + 1, h => h.elim
+
+theorem Forgets.getElem? : ∀ {l l' : List (Nat × Nat × Option Cursor)} {k : Nat} {e' : Nat × Nat × Option Cursor},
+    Forgets l l' → l'[k]? = some e' → ∃ e, l[k]? = some e ∧ EForget e e'
+  | [], [], _, _, _, hk => by simp at hk
+  | e :: _, _ :: _, 0, _, h, hk => by
+    simp only [List.getElem?_cons_zero, Option.some.injEq] at hk; subst hk
+    exact ⟨e, by simp, h.1⟩
+  | _ :: _, _ :: _, k + 1, _, h, hk => by
+    simp only [List.getElem?_cons_succ] at hk ⊢
+    exact Forgets.getElem? h.2 hk
+  | [], _ :: _, _, _, h, _ => h.elim
+  | _ :: _, [], _, _, h, _ => h.elim
+
+/-- packet ids and filter indexes, in order -/
+theorem Forgets.keys : ∀ {l l' : List (Nat × Nat × Option Cursor)}, Forgets l l' →
+    l'.map (fun e => (e.1, e.2.1)) = l.map (fun e => (e.1, e.2.1))
+  | [], [], _ => rfl
+  | _ :: _, _ :: _, h => by
+    simp only [List.map_cons, List.cons.injEq, Prod.mk.injEq]
+    exact ⟨⟨h.1.1, h.1.2.1⟩, Forgets.keys h.2⟩
+  | [], _ :: _, h => h.elim
+  | _ :: _, [], h => h.elim
+
+theorem Forgets.pkids {l l' : List (Nat × Nat × Option Cursor)} (h : Forgets l l') :
+    l'.map (·.1) = l.map (·.1) := by
+  have := congrArg (List.map Prod.fst) h.keys
+  simpa [List.map_map, Function.comp_def] using this
+
+theorem Forgets.nil_iff {l' : List (Nat × Nat × Option Cursor)} : Forgets [] l' ↔ l' = [] := by
+  cases l' <;> simp [Forgets]
+
+theorem Forgets.forgetCursors (o : Outgoing) (fi : Nat) : Forgets o.inflight (o.forgetCursors fi).inflight := by
+  unfold Outgoing.forgetCursors
+  simp only
+  induction o.inflight with
+  | nil => trivial
+  | cons e l ih =>
+    refine ⟨?_, ih⟩
+    by_cases he : e.2.1 = fi
+    · simp only [he, if_true]; exact ⟨rfl, he.symm, .inr rfl⟩
+    · simp only [he, if_false]; exact EForget.refl e
+
+theorem forgetCursors_rest (o : Outgoing) (fi : Nat) :
+    (o.forgetCursors fi).lastPkid = o.lastPkid ∧ (o.forgetCursors fi).unackedPubrels = o.unackedPubrels := ⟨rfl, rfl⟩
+
+/-- what `unsubOut` does to a window: cursors may be forgotten, nothing else -/
+theorem unsubOut_spec (d : DataLog) (subs : List String) (o : Outgoing) (f : String) :
+    Forgets o.inflight (unsubOut d subs o f).inflight ∧ (unsubOut d subs o f).lastPkid = o.lastPkid ∧
+    (unsubOut d subs o f).unackedPubrels = o.unackedPubrels := by
+  unfold unsubOut
+  split
+  · exact ⟨Forgets.refl _, rfl, rfl⟩
+  · split
+    · exact ⟨Forgets.refl _, rfl, rfl⟩
+    · exact ⟨Forgets.forgetCursors o _, rfl, rfl⟩
+
+/-- the windows of a connection before / after: cursors may be forgotten, nothing else changes -/
+def Outgoing.forgot (o o' : Outgoing) : Prop :=
+  Forgets o.inflight o'.inflight ∧ o'.lastPkid = o.lastPkid ∧ o'.unackedPubrels = o.unackedPubrels
+
+theorem Outgoing.forgot_refl (o : Outgoing) : o.forgot o := ⟨Forgets.refl _, rfl, rfl⟩
+theorem Outgoing.forgot_trans {a b c : Outgoing} (h1 : a.forgot b) (h2 : b.forgot c) : a.forgot c :=
+  ⟨h1.1.trans h2.1, h2.2.1.trans h1.2.1, h2.2.2.trans h1.2.2⟩
+theorem Outgoing.forgot_of_eq {o o' : Outgoing} (h : o' = o) : o.forgot o' := h ▸ o.forgot_refl
+
+/-- UNSUBSCRIBE: identity kept; window entries of connection `id` may forget their cursor (ids,
+    filter indexes, order, `last_pkid`, unacknowledged PUBRELs stay); others differ at most in the
+    tracker -/
+def RU (id : Nat) : Nat → Conn → Conn → Prop :=
+  fun j c c' => c.sameId c' ∧ c.out.forgot c'.out ∧ (j ≠ id → RT j c c')
+
+/-- identity kept; the outgoing window only loses entries at its front (acknowledged ones), the
+    remaining ones may forget their cursor (UNSUBSCRIBE) and `last_pkid` stays; others differ at most
+    in the tracker -/
 def RA (id : Nat) : Nat → Conn → Conn → Prop :=
   fun j c c' => c.sameId c' ∧ (j ≠ id → RT j c c') ∧
-    ∃ n, c'.out.inflight = c.out.inflight.drop n ∧ c'.out.lastPkid = c.out.lastPkid
+    ∃ n, Forgets (c.out.inflight.drop n) c'.out.inflight ∧ c'.out.lastPkid = c.out.lastPkid
 
 theorem RT.mk (j : Nat) (c : Conn) (t : Tracker) : RT j c { c with tracker := t } := ⟨t, rfl⟩
 
@@ -60,16 +185,27 @@ instance (id : Nat) : ConnRel (RW id) where
   trans := fun j a b c h1 h2 =>
     ⟨Conn.sameId_trans h1.1 h2.1, fun hj => ConnRel.trans j a b c (h1.2 hj) (h2.2 hj)⟩
 
+instance (id : Nat) : ConnRel (RU id) where
+  refl := fun j c => ⟨c.sameId_refl, c.out.forgot_refl, fun _ => ConnRel.refl j c⟩
+  trans := fun j a b c h1 h2 =>
+    ⟨Conn.sameId_trans h1.1 h2.1, Outgoing.forgot_trans h1.2.1 h2.2.1,
+      fun hj => ConnRel.trans j a b c (h1.2.2 hj) (h2.2.2 hj)⟩
+
 instance (id : Nat) : ConnRel (RA id) where
-  refl := fun j c => ⟨c.sameId_refl, fun _ => ConnRel.refl j c, 0, by simp, rfl⟩
+  refl := fun j c => ⟨c.sameId_refl, fun _ => ConnRel.refl j c, 0, by simpa using Forgets.refl _, rfl⟩
   trans := fun j a b c h1 h2 => by
     obtain ⟨n, e1, e2⟩ := h1.2.2
     obtain ⟨m, e3, e4⟩ := h2.2.2
-    exact ⟨Conn.sameId_trans h1.1 h2.1, fun hj => ConnRel.trans j a b c (h1.2.1 hj) (h2.2.1 hj),
-      n + m, by rw [e3, e1, List.drop_drop], e4.trans e2⟩
+    refine ⟨Conn.sameId_trans h1.1 h2.1, fun hj => ConnRel.trans j a b c (h1.2.1 hj) (h2.2.1 hj),
+      n + m, ?_, e4.trans e2⟩
+    have := (e1.drop m).trans e3
+    rwa [List.drop_drop] at this
 
-theorem RO.toRA {id j : Nat} {c c' : Conn} (h : RO id j c c') : RA id j c c' :=
-  ⟨h.1, h.2.2, 0, by simp [h.2.1], by rw [h.2.1]⟩
+theorem RO.toRU {id j : Nat} {c c' : Conn} (h : RO id j c c') : RU id j c c' :=
+  ⟨h.1, Outgoing.forgot_of_eq h.2.1, h.2.2⟩
+theorem RU.toRA {id j : Nat} {c c' : Conn} (h : RU id j c c') : RA id j c c' :=
+  ⟨h.1, h.2.2, 0, by simpa using h.2.1.1, h.2.1.2.1⟩
+theorem RO.toRA {id j : Nat} {c c' : Conn} (h : RO id j c c') : RA id j c c' := h.toRU.toRA
 theorem RA.toRW {id j : Nat} {c c' : Conn} (h : RA id j c c') : RW id j c c' := ⟨h.1, h.2.1⟩
 
 theorem RT.toRO {id j : Nat} {c c' : Conn} (h : RT j c c') : RO id j c c' := ⟨h.sameId, h.out, fun _ => h⟩
